@@ -359,6 +359,27 @@ Definition zero_via_access (w : world) (r : resource) : bool :=
 
 End Spec.
 
+(* the quota for boxes of apps created in the group: one unnamed box per EMPTY reference *)
+Definition is_nil (b : bytes) : bool := match b with [] => true | _ => false end.
+Definition rref_empty (rr : rref) : bool :=
+  match rr with
+  | REmpty => true
+  | RAddr a | RAsset a | RApp a => a =? 0
+  | RHold a s | RLoc a s => (a =? 0) && (s =? 0)
+  | RBox i nm => (i =? 0) && is_nil nm
+  end.
+Definition box_empty (br : N * bytes) : bool := (fst br =? 0) && is_nil (snd br).
+Definition empty_refs (t : txn) : N :=
+  match t with
+  | TAppl _ ap =>
+      match ap_access ap with
+      | Some l => N.of_nat (List.length (filter rref_empty l))
+      | None => N.of_nat (List.length (filter box_empty (ap_boxes ap)))
+      end
+  | _ => 0
+  end.
+Definition group_empty_refs (g : list txn) : N := fold_left (fun acc t => acc + empty_refs t) g 0.
+
 (* ==================================================================== checker *)
 (* Concrete address space of the harness: 0 = zero address, 1..999 plain accounts, 1000 + id = the
    address of application id. *)
@@ -558,6 +579,18 @@ Definition check (t : term) : term :=
                   match p_access acc with
                   | None => v_parse
                   | Some acc =>
+                      (* an inner transaction that got past cx.allows under sharing: the holdings / local
+                         states it (or its pre-sharing callee) will reach count as touched *)
+                      let extra := match acc with
+                                   | AISubmit it cv =>
+                                       if list_eqb N.eqb ocls [0] && (sharedResourcesVersion <=? ver)
+                                       then needs_res (inner_needs appaddr_c cx it cv) else []
+                                   | _ => []
+                                   end in
+                      let bad := filter (fun r => negb (justified_b appaddr_c w r)) (otouch ++ extra) in
+                      let spec_ok := pl || match bad with [] => true | _ => false end in
+                      let known := negb pl && negb (match bad with [] => true | _ => false end) &&
+                                   forallb (zero_via_access w) bad in
                       let m := resolve appaddr_c cx acc in
                       let mcls := match m with Ok _ => 0 | Err e => e end in
                       let mtouch := match m with Ok rs => rs | Err _ => [] end in
@@ -583,7 +616,9 @@ Definition check (t : term) : term :=
                                                         | ResBox app _ => negb (memN app (created_apps w))
                                                         | _ => true
                                                         end) bad in
-                        let spec_ok := pl || match bad_box with [] => true | _ => false end in
+                        (* ... and at most one such box per empty reference of the group (C35_box_quota) *)
+                        let spec_ok := pl || (match bad_box with [] => true | _ => false end &&
+                                              (N.of_nat (List.length bad) <=? group_empty_refs g)) in
                         verdict spec_ok (list_eqb N.eqb ocls mcls) true mobs
                   end
               | _ => v_parse
